@@ -75,11 +75,15 @@ OPTIONS = ["equal", "noreload", "autoescape", "trim_blocks", "lstrip_blocks", "k
            "block_delimiters", "finalize", "enable_async", "sandboxed", "newline_sequence", "optimized"]
 
 
-def make_env(opt, loader, bcc):
+def make_env(opt, loader, bcc, cache_size=0):
     import jinja2
     from jinja2.sandbox import SandboxedEnvironment
 
     cls = SandboxedEnvironment if opt == "sandboxed" else jinja2.Environment
+    if cache_size:
+        # the template cache is on: a cached template decides by its up-to-date callable whether the loader (and the
+        # bytecode cache) is asked again
+        return cls(loader=loader, bytecode_cache=bcc, cache_size=cache_size, auto_reload=True, **cfg_kwargs(opt))
     # "noreload": the template cache is off (cache_size=0), so every load goes to the loader and the bytecode
     # cache; auto_reload must not matter for what the bytecode cache accepts
     return cls(loader=loader, bytecode_cache=bcc, cache_size=0, auto_reload=(opt != "noreload"), **cfg_kwargs(opt))
@@ -103,7 +107,7 @@ def reference(opt, name, version):
 # ------------------------------------------------------------------ part A
 
 class System:
-    def __init__(self, root, slot, opts):
+    def __init__(self, root, slot, opts, cache_size=0, own_bcc=False):
         import jinja2
         from jinja2.bccache import FileSystemBytecodeCache
 
@@ -114,7 +118,9 @@ class System:
         self.mapping = {n: source(n, 1) for n in NAMES}
         self.loader = jinja2.DictLoader(self.mapping)
         self.bcc = FileSystemBytecodeCache(self.dir)
-        self.envs = [make_env(o, self.loader, self.bcc) for o in opts]
+        # own_bcc: every environment has its own cache OBJECT on the shared directory (two processes)
+        self.bccs = [FileSystemBytecodeCache(self.dir) if own_bcc else self.bcc for _ in opts]
+        self.envs = [make_env(o, self.loader, b, cache_size) for o, b in zip(opts, self.bccs, strict=True)]
         self.opts = opts
         # model: entries name -> (version, writer index)
         self.m_entries = {}
@@ -233,6 +239,47 @@ def part_a(opt):
         })
     if res.sample_histories:
         p.sample({"part": "A", "configs": list(opts), "history": res.sample_histories[0]}, cap=1)
+    shutil.rmtree(root, ignore_errors=True)
+    return p
+
+
+def part_a_flat(arg):
+    """every history (no state merging at all) up to the depth, for equal configurations: what survives in objects
+    (an environment's template cache, a cache object's private memo) is invisible to the directory-based canonical
+    state of the search above, so these variants are enumerated flat"""
+    variant, first, depth = arg
+    p = core.Part()
+    opts = ("base", "base")
+    root = core.scratch_dir("c27f")
+    refs = {(o, n, v): reference(o, n, v) for o in set(opts) for n in NAMES for v in (1, 2)}
+    kw = {"shared-object": {}, "own-objects": {"own_bcc": True}, "template-cache": {"cache_size": 50},
+          "template-cache-own-objects": {"cache_size": 50, "own_bcc": True}}[variant]
+    slot = [0]
+
+    def system():
+        slot[0] = (slot[0] + 1) % 6
+        return System(root, slot[0], opts, **kw)
+
+    step0 = make_step(refs, True)
+
+    def step(s, op):
+        if op[0] == "clear":
+            for b in s.bccs:
+                b.clear()
+            s.m_entries.clear()
+            return None, None
+        return step0(s, op)
+
+    ops = [o for o in OPS if o[0] != "drop"]
+    count, bad = e2.enumerate_histories(system, ops, step, depth, prefix_shard=(first,))
+    p.evals += count
+    p.count("flat_histories", count)
+    p.sig(("A-flat", variant, first[0], bool(bad)))
+    for hist, op, a, b in bad:
+        p.violation(f"C27/stale/equal-config/{variant}", {
+            "msg": f"two equally configured environments ({variant}): history {list(hist)} then {op}: rendered {a!r}, expected {b!r}",
+            "script": f"from checks import c27\nprint({list(hist) + [op]!r})\n"})
+    p.sample({"part": "A-flat", "variant": variant, "first": list(first), "depth": depth}, cap=1)
     shutil.rmtree(root, ignore_errors=True)
     return p
 
@@ -678,12 +725,13 @@ def part_d(arg):
 
 def dispatch(arg):
     part, a = arg
-    return {"A": part_a, "B": part_b, "C": part_c, "D": part_d}[part](a)
+    return {"A": part_a, "F": part_a_flat, "B": part_b, "C": part_c, "D": part_d}[part](a)
 
 
 def run(ctx: core.Ctx):
     core.import_all_jinja()
-    ctx.rule = ("A: every operation on every reachable (source versions, cache entries) state for each configuration pair; "
+    ctx.rule = ("A: every operation on every reachable (source versions, cache entries) state for each configuration pair, plus every "
+                "history without merging up to the flat depth for equal configurations (shared / private cache objects, template cache on); "
                 "B: every write-path operation x torn prefix x {kill, OSError, concurrent clear(), entry path occupied} x {empty dir, old entry}; C: every truncation "
                 "offset + foreign magic + stale + swapped; D: every fake-memcached mode x truncation; distinct = distinct "
                 "(part, configuration, operation/damage kind, outcome)")
@@ -694,6 +742,10 @@ def run(ctx: core.Ctx):
     ]
     opts = OPTIONS if not ctx.quick else ["equal", "noreload", "autoescape", "trim_blocks", "variable_delimiters", "finalize", "enable_async", "sandboxed"]
     shards = [("A", o) for o in opts]
+    fdepth = 4 if ctx.quick else 5
+    flat_ops = [o for o in OPS if o[0] != "drop"]
+    shards += [("F", (v, o, fdepth)) for v in ("shared-object", "own-objects", "template-cache", "template-cache-own-objects") for o in flat_ops]
+    ctx.cov["flat_history_depth"] = fdepth
     shards += [("B", (prior, fl)) for prior in ("empty", "old-entry") for fl in ("kill", "exception", "clear", "occupy")]
     step = 200 if ctx.quick else 100
     for o in (["base", "autoescape"] if ctx.quick else ["base", "autoescape", "enable_async", "sandboxed"]):
